@@ -156,6 +156,15 @@ func verifyFunction(w *World, fn *ssa.Function, spec *FuncSpec) (vc *VC) {
 		}
 		vc.assume(g)
 	}
+	for _, ap := range spec.AssumePre {
+		g, err := ctx.evalBool(ap.E)
+		if err != nil {
+			vc.unsupportedf("assume_pre: %v", err)
+			continue
+		}
+		vc.assume(g)
+		vc.note("modelling assumption inside %s: %s", vc.name, ap.Text)
+	}
 	vc.tableFacts()
 	for _, lm := range spec.Lemmas {
 		g, err := ctx.evalBool(lm.E)
